@@ -14,7 +14,7 @@ from bctmc.tally import Tally
 from bctmc import dtypes
 
 PROPERTY = 'C16'
-RULE = ('five structured graphs on 144-200 nodes (necklace of 64 diamonds = 2^64 geodesics, path200, cycle151, 12x12 grid, necklace31); element types: every routine also on int64 / int32 / uint8 / bool copies of all 4-node graphs over {0,1,2} and 5-node binary graphs (same values as for float64; integers must not raise, a boolean matrix may be rejected with TypeError); the structured 7-10 node family of bctmc/named.py and all labelled undirected graphs with n<=6 (quick) / n<=7 (thorough) nodes, each in three '
+RULE = ('eight structured graphs on 144-300 nodes (incl. K260, star300, path300) (necklace of 64 diamonds = 2^64 geodesics, path200, cycle151, 12x12 grid, necklace31); element types: every routine also on int64 / int32 / uint8 / bool copies of all 4-node graphs over {0,1,2} and 5-node binary graphs (same values as for float64; integers must not raise, a boolean matrix may be rejected with TypeError); the structured 7-10 node family of bctmc/named.py and all labelled undirected graphs with n<=6 (quick) / n<=7 (thorough) nodes, each in three '
         'variants (binary, weights {1,2}, non-zero diagonal), every free tree on 8-10 nodes (23 + 47 + 106 shapes) under a fixed family of node orders (BFS / reverse BFS / DFS pre- and post-order from every root, leaf peeling, by degree; 9 765 labelled trees) and, for 9 and 10 nodes, under EVERY numbering that puts all leaves before all internal nodes (thorough: also all internal nodes first), ALL labelled trees on 7 and 8 nodes and the forests obtained by cutting one edge (thorough: ALL 4 782 969 + 100 000 000 labelled trees on 9 and 10 nodes), plus every asymmetric 0/1 matrix on '
         '3 nodes (with and without diagonal) and every 3-4 node symmetric graph perturbed in one cell by 1e-9 / 1e-12; a case is non-trivial when some component has >=3 '
         'nodes (several partial sets must be merged) or the input must be rejected')
@@ -34,7 +34,7 @@ def plan(ctx):
             units.append(('und', n, a, b))
     for (a, b) in ss.ranges(len(named.family('bin_und')), 8):
         units.append(('named', 0, a, b))
-    for k in range(len(named.family('large_und'))):
+    for k in range(len(named.family('xlarge_und'))):
         units.append(('named_large', 0, k, k + 1))
     # trees beyond the all-graphs scope: every free tree on 8-10 nodes under a fixed family of node orders, and ALL
     # labelled trees (Pruefer enumeration) on 7-8 nodes (thorough: 9 and 10 nodes, 4 782 969 + 100 000 000 trees)
@@ -228,8 +228,8 @@ def work(unit):
                 t.c['nontrivial'] += 1
                 check_und(t, V, name, case)
         elif kind == 'named_large':
-            label, A = named.family('large_und')[idx]
-            case = {'family': 'und', 'n': len(A), 'index': idx, 'graph': label, 'variant': 'binary', 'A': 'named:large_und[%d]' % idx}
+            label, A = named.family('xlarge_und')[idx]
+            case = {'family': 'und', 'n': len(A), 'index': idx, 'graph': label, 'variant': 'binary', 'A': 'named:xlarge_und[%d]' % idx}
             t.c['evaluations'] += 1
             t.c['nontrivial'] += 1
             check_und(t, A, 'binary', case)
@@ -293,7 +293,7 @@ def replay(rec):
     t = Tally(PROPERTY)
     case = rec['case']
     if isinstance(case['A'], str):
-        A = named.family('large_und')[case['index']][1]
+        A = named.family('xlarge_und')[case['index']][1]
     else:
         A = np.array(case['A'], dtype=float)
     if case['family'] == 'und':
